@@ -672,4 +672,457 @@ theorem blockOps_action (a b c d : Bool) (names : List String) (h : blockOps a b
       | (simp [applyNames, gateRow, PRow.h, PRow.s, PRow.sdg] <;> cases p.x q <;> cases p.z q <;> rfl))
 
 
+/-! ### exhaustiveness of the small search -/
+
+theorem allCoefs_complete (c : List Bool) : c ∈ allCoefs c.length := by
+  induction c with
+  | nil => simp [allCoefs]
+  | cons b t ih =>
+    simp only [List.length_cons, allCoefs, List.mem_append, List.mem_map]
+    cases b
+    · left; exact ⟨t, ih, rfl⟩
+    · right; exact ⟨t, ih, rfl⟩
+
+theorem parityTo_succ_left (n : Nat) (f : Nat → Bool) : parityTo (n + 1) f = xor (f 0) (parityTo n fun t => f (t + 1)) := by
+  induction n with
+  | zero => simp [parityTo]
+  | succ k ih =>
+    show xor (parityTo (k + 1) f) (f (k + 1)) = xor (f 0) (xor (parityTo k fun t => f (t + 1)) (f (k + 1)))
+    rw [ih]
+    cases f 0 <;> cases parityTo k (fun t => f (t + 1)) <;> cases f (k + 1) <;> rfl
+
+theorem vget_cons_succ (b : Bool) (l : List Bool) (t : Nat) : vget (b :: l) (t + 1) = vget l t := by
+  simp [vget]
+
+theorem vget_cons_zero (b : Bool) (l : List Bool) : vget (b :: l) 0 = b := by simp [vget]
+
+/-- entry `pos` of a sum of selected basis vectors -/
+theorem lin_fold_vget (width : Nat) (basis : List (List Bool)) (coef : List Bool) (acc : List Bool) (pos : Nat)
+    (hlen : coef.length = basis.length) (hb : ∀ v ∈ basis, v.length = width) (hacc : acc.length = width) :
+    vget ((List.zip coef basis).foldl (fun acc p => if p.1 then vxor acc p.2 else acc) acc) pos =
+      xor (vget acc pos) (parityTo basis.length fun t => vget coef t && vget (basis.getD t []) pos) := by
+  induction basis generalizing coef acc with
+  | nil => simp [parityTo]
+  | cons b bs ih =>
+    cases coef with
+    | nil => simp at hlen
+    | cons c cs =>
+      simp only [List.zip_cons_cons, List.foldl_cons, List.length_cons]
+      have hbl : b.length = width := hb b (by simp)
+      have hacc' : (if c = true then vxor acc b else acc).length = width := by
+        split
+        · rw [vxor_length acc b (by rw [hacc, hbl]), hacc]
+        · exact hacc
+      rw [ih cs _ (by simpa using hlen) (fun v hv => hb v (List.mem_cons_of_mem _ hv)) hacc', parityTo_succ_left]
+      have e1 : vget (c :: cs) 0 = c := vget_cons_zero c cs
+      have e2 : (b :: bs).getD 0 [] = b := by simp
+      have e3 : ∀ t, vget (c :: cs) (t + 1) = vget cs t := fun t => vget_cons_succ c cs t
+      have e4 : ∀ t, (b :: bs).getD (t + 1) [] = bs.getD t [] := fun t => by simp
+      simp only [e1, e2, e3, e4]
+      cases c
+      · simp
+      · simp only [if_true, Bool.true_and]
+        rw [vget_vxor acc b pos (by rw [hacc, hbl])]
+        cases vget acc pos <;> cases vget b pos <;> cases parityTo bs.length _ <;> rfl
+
+theorem vget_replicate_false (w pos : Nat) : vget (List.replicate w false) pos = false := by
+  simp only [vget, List.getD, List.getElem?_replicate]
+  split <;> rfl
+
+theorem lin_vget (width : Nat) (basis : List (List Bool)) (coef : List Bool) (pos : Nat)
+    (hlen : coef.length = basis.length) (hb : ∀ v ∈ basis, v.length = width) :
+    vget (lin width basis coef) pos = parityTo basis.length fun t => vget coef t && vget (basis.getD t []) pos := by
+  unfold lin
+  rw [lin_fold_vget width basis coef _ pos hlen hb (by simp), vget_replicate_false]
+  simp
+
+
+/-- strictly increasing list, all entries below `b` -/
+def SortedBelow (l : List Nat) (b : Nat) : Prop := l.Pairwise (· < ·) ∧ ∀ c ∈ l, c < b
+
+theorem sortedBelow_snoc (l : List Nat) (b : Nat) (h : SortedBelow l b) : SortedBelow (l ++ [b]) (b + 1) := by
+  refine ⟨?_, ?_⟩
+  · rw [List.pairwise_append]
+    exact ⟨h.1, by simp, fun x hx y hy => by simp at hy; rw [hy]; exact h.2 x hx⟩
+  · intro c hc
+    rcases List.mem_append.mp hc with h1 | h1
+    · have := h.2 c h1; omega
+    · simp at h1; omega
+
+theorem colFinderLoop_sorted (m : BMat) (fuel pr pc : Nat) (deps : List Nat) (hf : pc + fuel + 1 ≤ m.c)
+    (hd : SortedBelow deps pc) : SortedBelow (colFinderLoop m fuel pr pc deps) m.c := by
+  induction fuel generalizing pr pc deps with
+  | zero => exact ⟨hd.1, fun c hc => by have := hd.2 c hc; omega⟩
+  | succ f ih =>
+    simp only [colFinderLoop]
+    split
+    · split
+      · refine ⟨?_, ?_⟩
+        · rw [List.pairwise_append]
+          refine ⟨hd.1, List.Pairwise.filter _ List.pairwise_lt_range, ?_⟩
+          intro x hx y hy
+          simp only [List.mem_filter, List.mem_range, decide_eq_true_eq] at hy
+          have := hd.2 x hx; omega
+        · intro c hc
+          rcases List.mem_append.mp hc with h1 | h1
+          · have := hd.2 c h1; omega
+          · simp only [List.mem_filter, List.mem_range] at h1; exact h1.1
+      · exact ih (pr + 1) (pc + 1) deps (by omega) ⟨hd.1, fun c hc => by have := hd.2 c hc; omega⟩
+    · exact ih pr (pc + 1) (deps ++ [pc]) (by omega) (sortedBelow_snoc deps pc hd)
+
+theorem colFinder_sorted (m : BMat) (hc : 0 < m.c) : SortedBelow (colFinder m) m.c := by
+  unfold colFinder
+  exact colFinderLoop_sorted m (m.c - 1) 0 0 [] (by omega) ⟨by simp, by simp⟩
+
+/-! #### `list.insert` -/
+
+theorem vget_pyInsert_at (l : List Bool) (k : Nat) (v : Bool) (hk : k ≤ l.length) : vget (pyInsert l k v) k = v := by
+  unfold vget pyInsert
+  have : (l.take k).length = k := by simp [hk]
+  rw [List.getD, List.getElem?_append_right (by omega)]
+  simp [this]
+
+theorem vget_pyInsert_lt (l : List Bool) (k pos : Nat) (v : Bool) (hp : pos < k) (hk : k ≤ l.length) :
+    vget (pyInsert l k v) pos = vget l pos := by
+  unfold vget pyInsert
+  have : (l.take k).length = k := by simp [hk]
+  rw [List.getD, List.getD, List.getElem?_append_left (by omega), List.getElem?_take_of_lt hp]
+
+theorem pyInsert_length (l : List Bool) (k : Nat) (v : Bool) : (pyInsert l k v).length = l.length + 1 := by
+  unfold pyInsert
+  simp
+  omega
+
+/-- sorted lists: `cols[t] + (length - t) ≤ bound` -/
+theorem sorted_getD_le (cols : List Nat) (b : Nat) (h : SortedBelow cols b) (t : Nat) (ht : t < cols.length) :
+    cols.getD t 0 + (cols.length - t) ≤ b := by
+  induction cols generalizing t b with
+  | nil => simp at ht
+  | cons c cs ih =>
+    have hcs : SortedBelow cs b := ⟨(List.pairwise_cons.mp h.1).2, fun x hx => h.2 x (List.mem_cons_of_mem _ hx)⟩
+    cases t with
+    | zero =>
+      simp only [List.getD_cons_zero, List.length_cons]
+      cases cs with
+      | nil => have := h.2 c (by simp); simp; omega
+      | cons c2 cs2 =>
+        have h1 := ih b hcs 0 (by simp)
+        simp only [List.getD_cons_zero, List.length_cons] at h1
+        have h2 : c < c2 := (List.pairwise_cons.mp h.1).1 c2 (by simp)
+        simp only [List.length_cons]; omega
+    | succ t =>
+      simp only [List.getD_cons_succ, List.length_cons]
+      have := ih b hcs t (by simpa using ht)
+      omega
+
+theorem sorted_getD_lt (cols : List Nat) (b : Nat) (h : SortedBelow cols b) (s t : Nat) (hst : s < t) (ht : t < cols.length) :
+    cols.getD s 0 < cols.getD t 0 := by
+  have hs : s < cols.length := by omega
+  have := List.pairwise_iff_getElem.mp h.1 s t hs ht hst
+  simpa [List.getD, List.getElem?_eq_getElem hs, List.getElem?_eq_getElem ht] using this
+
+/-- the unit pattern of a basis vector on the free columns: after splicing `e_i` in at the (sorted) free columns, the
+    entry at free column `t` is `[i = t]` -/
+theorem splice_unit (x : List Bool) (cols : List Nat) (i : Nat) (b : Nat) (hs : SortedBelow cols b)
+    (hb : b = x.length + cols.length) (k : Nat) (hk : k ≤ cols.length) :
+    ((List.range k).foldl (fun acc j => pyInsert acc (cols.getD j 0) (decide (i = j))) x).length = x.length + k ∧
+    ∀ t, t < k → vget ((List.range k).foldl (fun acc j => pyInsert acc (cols.getD j 0) (decide (i = j))) x) (cols.getD t 0) = decide (i = t) := by
+  induction k with
+  | zero => simp
+  | succ k ih =>
+    obtain ⟨h1, h2⟩ := ih (by omega)
+    rw [List.range_succ, List.foldl_append]
+    simp only [List.foldl_cons, List.foldl_nil]
+    have hck : cols.getD k 0 ≤ x.length + k := by
+      have := sorted_getD_le cols b hs k (by omega)
+      omega
+    refine ⟨by rw [pyInsert_length, h1]; omega, ?_⟩
+    intro t ht
+    by_cases e : t = k
+    · subst e
+      exact vget_pyInsert_at _ _ _ (by rw [h1]; exact hck)
+    · have htk : t < k := by omega
+      rw [vget_pyInsert_lt _ _ _ _ (sorted_getD_lt cols b hs t k htk (by omega)) (by rw [h1]; exact hck)]
+      exact h2 t htk
+
+
+/-! #### sums over a sub-list of the columns, exchange of sums, the inverse -/
+
+theorem getD_append_left' (l1 l2 : List Nat) (k : Nat) (hk : k < l1.length) : (l1 ++ l2).getD k 0 = l1.getD k 0 := by
+  simp [List.getD, List.getElem?_append_left hk]
+
+theorem parityTo_filter (c : Nat) (p : Nat → Bool) (f : Nat → Bool) :
+    parityTo c (fun j => p j && f j) =
+      parityTo ((List.range c).filter p).length (fun k => f (((List.range c).filter p).getD k 0)) := by
+  induction c with
+  | zero => rfl
+  | succ c ih =>
+    rw [List.range_succ, List.filter_append]
+    by_cases hp : p c = true
+    · have e : List.filter p [c] = [c] := by simp [hp]
+      rw [e, List.length_append]
+      show xor (parityTo c _) (p c && f c) = xor (parityTo _ _) _
+      rw [ih, hp]
+      congr 1
+      · apply parityTo_congr
+        intro k hk
+        rw [getD_append_left' _ _ k hk]
+      · simp [List.getD, List.getElem?_append_right]
+    · have hp' : p c = false := by simpa using hp
+      have e : List.filter p [c] = [] := by simp [hp']
+      rw [e, List.append_nil]
+      show xor (parityTo c _) (p c && f c) = _
+      rw [ih, hp']; simp
+
+theorem parityTo_comm (a b : Nat) (g : Nat → Nat → Bool) :
+    parityTo a (fun i => parityTo b (fun j => g i j)) = parityTo b (fun j => parityTo a (fun i => g i j)) := by
+  induction a with
+  | zero => simp [parityTo, parityTo_false]
+  | succ a ih =>
+    show xor (parityTo a _) (parityTo b (g a)) = parityTo b (fun j => xor (parityTo a (fun i => g i j)) (g a j))
+    rw [parityTo_xor, ih]
+
+theorem parityTo_and_const (n : Nat) (c : Bool) (f : Nat → Bool) : parityTo n (fun j => c && f j) = (c && parityTo n f) := by
+  cases c
+  · simp [parityTo_false]
+  · simp
+
+theorem parityTo_const_and (n : Nat) (c : Bool) (f : Nat → Bool) : parityTo n (fun j => f j && c) = (parityTo n f && c) := by
+  cases c
+  · simp [parityTo_false]
+  · simp
+
+theorem isInverse_spec (k : Nat) (t a : Adj) (h : isInverse k t a = true) (i j : Nat) (hi : i < k) (hj : j < k) :
+    matMul k t a i j = decide (i = j) ∧ matMul k a t i j = decide (i = j) := by
+  unfold isInverse at h
+  rw [List.all_eq_true] at h
+  have h1 := h i (List.mem_range.mpr hi)
+  rw [List.all_eq_true] at h1
+  have h2 := h1 j (List.mem_range.mpr hj)
+  simp only [Bool.and_eq_true, beq_iff_eq, idM] at h2
+  exact h2
+
+theorem gf2Inv_spec (a ainv : BMat) (h : gf2Inv a = .ok ainv) :
+    a.r = a.c ∧ ∀ i j, i < a.r → j < a.r →
+      matMul a.r ainv.f a.f i j = decide (i = j) ∧ matMul a.r a.f ainv.f i j = decide (i = j) := by
+  unfold gf2Inv at h
+  split at h
+  · cases h
+  · rename_i hsq
+    split at h
+    · cases h
+    · split at h
+      · rename_i hinv
+        cases h
+        exact ⟨by simpa using hsq, fun i j hi hj => isInverse_spec _ _ _ hinv i j hi hj⟩
+      · cases h
+
+/-- the columns that are not free -/
+def keepCols (m : BMat) (colList : List Nat) : List Nat := (List.range m.c).filter fun j => !colList.contains j
+
+/-- a solution that vanishes on the free columns vanishes everywhere (the pivot-column matrix is invertible) -/
+theorem zero_of_free_zero (m : BMat) (colList : List Nat) (ainv : BMat) (w : Nat → Bool)
+    (hinv : gf2Inv (deleteCols m colList) = .ok ainv) (hsol : SolF m w)
+    (hfree : ∀ j, j < m.c → colList.contains j = true → w j = false) : ∀ j, j < m.c → w j = false := by
+  obtain ⟨hsq, hI⟩ := gf2Inv_spec _ _ hinv
+  have hr : (deleteCols m colList).r = m.r := rfl
+  have hc : (deleteCols m colList).c = (keepCols m colList).length := rfl
+  have hf : ∀ i k, (deleteCols m colList).f i k = m.f i ((keepCols m colList).getD k 0) := fun _ _ => rfl
+  have hk : m.r = (keepCols m colList).length := by rw [← hr, hsq, hc]
+  -- the restriction of w to the kept columns is annihilated by the square matrix
+  have hA : ∀ i, i < m.r → parityTo m.r (fun t => (deleteCols m colList).f i t && w ((keepCols m colList).getD t 0)) = false := by
+    intro i hi
+    have h0 := hsol i hi
+    unfold rowDot at h0
+    have e : ∀ j, j < m.c → (m.f i j && w j) = ((!colList.contains j) && (m.f i j && w j)) := by
+      intro j hj
+      by_cases hcj : colList.contains j = true
+      · rw [hfree j hj hcj]; simp
+      · have : colList.contains j = false := by simpa using hcj
+        rw [this]; simp
+    rw [parityTo_congr m.c _ _ e, parityTo_filter] at h0
+    rw [hk]
+    exact h0
+  -- hence it is zero
+  have hw' : ∀ t0, t0 < m.r → w ((keepCols m colList).getD t0 0) = false := by
+    intro t0 ht0
+    have e1 : w ((keepCols m colList).getD t0 0) =
+        parityTo m.r (fun t => decide (t = t0) && w ((keepCols m colList).getD t 0)) := by
+      rw [parityTo_single m.r t0 _ ht0]
+    rw [e1]
+    have e2 : ∀ t, t < m.r → (decide (t = t0) && w ((keepCols m colList).getD t 0)) =
+        parityTo m.r (fun l => ainv.f t0 l && ((deleteCols m colList).f l t && w ((keepCols m colList).getD t 0))) := by
+      intro t ht
+      have := (hI t0 t (by rw [hr]; exact ht0) (by rw [hr]; exact ht)).1
+      rw [hr] at this
+      unfold matMul at this
+      have e3 : (parityTo m.r fun l => ainv.f t0 l && ((deleteCols m colList).f l t && w ((keepCols m colList).getD t 0))) =
+          (parityTo m.r (fun l => ainv.f t0 l && (deleteCols m colList).f l t) && w ((keepCols m colList).getD t 0)) := by
+        rw [← parityTo_const_and]
+        apply parityTo_congr
+        intro l _
+        rw [Bool.and_assoc]
+      rw [e3, this]
+      by_cases e : t = t0
+      · subst e; simp
+      · have e' : ¬ t0 = t := fun x => e x.symm
+        simp [e, e']
+    rw [parityTo_congr m.r _ _ e2, parityTo_comm]
+    apply parityTo_zero
+    intro l hl
+    rw [parityTo_and_const, hA l hl]; simp
+  intro j hj
+  by_cases hcj : colList.contains j = true
+  · exact hfree j hj hcj
+  · have hm : j ∈ keepCols m colList := by
+      simp only [keepCols, List.mem_filter, List.mem_range]
+      exact ⟨hj, by simpa using hcj⟩
+    obtain ⟨t, ht, e⟩ := List.getElem_of_mem hm
+    have : (keepCols m colList).getD t 0 = j := by simp [List.getD, List.getElem?_eq_getElem ht, e]
+    rw [← this]
+    exact hw' t (by rw [hk]; exact ht)
+
+
+theorem isValidClifford_congr (n : Nat) (u v : List Bool) (h : ∀ j, j < 4 * n → vget u j = vget v j) :
+    isValidClifford n u = isValidClifford n v := by
+  unfold isValidClifford
+  rw [Bool.eq_iff_iff, List.all_eq_true, List.all_eq_true]
+  constructor
+  · intro hh i hi
+    have hi' : i < n := List.mem_range.mp hi
+    rw [← h (4 * i) (by omega), ← h (4 * i + 1) (by omega), ← h (4 * i + 2) (by omega), ← h (4 * i + 3) (by omega)]
+    exact hh i hi
+  · intro hh i hi
+    have hi' : i < n := List.mem_range.mp hi
+    rw [h (4 * i) (by omega), h (4 * i + 1) (by omega), h (4 * i + 2) (by omega), h (4 * i + 3) (by omega)]
+    exact hh i hi
+
+theorem solutionBasisFinder_shape (m : BMat) (colList : List Nat) (basis : List (List Bool))
+    (e : solutionBasisFinder m colList = .ok basis) :
+    ∃ ainv, gf2Inv (deleteCols m colList) = .ok ainv ∧
+      basis = (List.range colList.length).map (fun i => basisVec m colList ainv i) ∧
+      (0 < colList.length → m.r + colList.length = m.c) := by
+  unfold solutionBasisFinder at e
+  split at e
+  · cases e
+  · rename_i hshape
+    split at e
+    · cases e
+    · rename_i ainv hinv
+      simp only [] at e
+      split at e
+      · cases e
+        refine ⟨ainv, hinv, rfl, fun hL => ?_⟩
+        by_cases h : m.r + colList.length = m.c
+        · exact h
+        · exact absurd ⟨hL, h⟩ hshape
+      · cases e
+
+theorem basisVec_unit (m : BMat) (colList : List Nat) (ainv : BMat) (hs : SortedBelow colList m.c)
+    (hshape : m.r + colList.length = m.c) (s t : Nat) (ht : t < colList.length) :
+    vget (basisVec m colList ainv s) (colList.getD t 0) = decide (s = t) := by
+  unfold basisVec
+  simp only []
+  have := splice_unit ((List.range m.r).map fun k => parityTo m.r fun l => ainv.f k l && m.f l (colList.getD s 0))
+    colList s m.c hs (by simp; omega) colList.length (Nat.le_refl _)
+  exact this.2 t ht
+
+/-- if no combination of the basis vectors is a valid Clifford, no solution of the system is -/
+theorem small_search_exhaustive (m : BMat) (colList : List Nat) (basis : List (List Bool)) (n : Nat)
+    (hc : m.c = 4 * n) (hL : 0 < colList.length) (hs : SortedBelow colList m.c)
+    (eb : solutionBasisFinder m colList = .ok basis)
+    (hnone : ∀ c ∈ allCoefs basis.length, isValidClifford n (lin (4 * n) basis c) = false)
+    (v : List Bool) (hv : SolF m (vget v)) : isValidClifford n v = false := by
+  obtain ⟨ainv, hinv, hbasis, hshape⟩ := solutionBasisFinder_shape m colList basis eb
+  have hshape' := hshape hL
+  have hgood := solutionBasisFinder_good m colList basis eb
+  have hlen : basis.length = colList.length := by rw [hbasis]; simp
+  -- the coefficients: the values of v on the free columns
+  let coef : List Bool := (List.range colList.length).map fun t => vget v (colList.getD t 0)
+  have hcl : coef.length = basis.length := by simp [coef, hlen]
+  have hmem : coef ∈ allCoefs basis.length := by rw [← hcl]; exact allCoefs_complete coef
+  have hcoef : ∀ s, s < colList.length → vget coef s = vget v (colList.getD s 0) := by
+    intro s hs'
+    simp [coef, vget, List.getD, hs']
+  have hbget : ∀ s, s < colList.length → basis.getD s [] = basisVec m colList ainv s := by
+    intro s hs'
+    rw [hbasis]
+    simp [List.getD, hs']
+  have hu := goodVec_lin m basis coef hgood
+  rw [hc] at hu
+  -- the difference vanishes on the free columns
+  have hfree : ∀ j, j < m.c → colList.contains j = true →
+      xor (vget v j) (vget (lin (4 * n) basis coef) j) = false := by
+    intro j _ hcj
+    have hm : j ∈ colList := by simpa using hcj
+    obtain ⟨t, ht, e⟩ := List.getElem_of_mem hm
+    have ej : colList.getD t 0 = j := by simp [List.getD, List.getElem?_eq_getElem ht, e]
+    rw [lin_vget (4 * n) basis coef j hcl (fun b hb => by rw [(hgood b hb).1, hc]), hlen]
+    have e1 : ∀ s, s < colList.length → (vget coef s && vget (basis.getD s []) j) = (decide (s = t) && vget v j) := by
+      intro s hs'
+      rw [hcoef s hs', hbget s hs', ← ej, basisVec_unit m colList ainv hs hshape' s t ht]
+      by_cases e2 : s = t
+      · subst e2; simp
+      · simp [e2]
+    rw [parityTo_congr _ _ _ e1, parityTo_single _ t _ ht]
+    simp
+  have hsolw : SolF m (fun j => xor (vget v j) (vget (lin (4 * n) basis coef) j)) := solF_xor m _ _ hv hu.2
+  have hz := zero_of_free_zero m colList ainv _ hinv hsolw hfree
+  have heq : ∀ j, j < 4 * n → vget (lin (4 * n) basis coef) j = vget v j := by
+    intro j hj
+    have := hz j (by rw [hc]; exact hj)
+    revert this
+    cases vget v j <;> cases vget (lin (4 * n) basis coef) j <;> simp
+  rw [← isValidClifford_congr n _ _ heq]
+  exact hnone coef hmem
+
+
+/-- **for a solution space of dimension ≤ 4 the search is exhaustive**: when `is_lc_equivalent` answers `no` on the
+    all-combinations path, *no* solution of the linear system has all blocks invertible -/
+theorem isLcEquivalent_no_small (a b : BMat) (mode : Mode) (draws : List Bool) (out : EqOut)
+    (hn : 0 < a.r) (e : isLcEquivalent a b mode draws = .ok out) (hsol : out.sol = none)
+    (hp : out.path = "all-combinations") (v : List Bool) (hv : SolF (coeffMaker a.r a.f b.f) (vget v)) :
+    isValidClifford a.r v = false := by
+  unfold isLcEquivalent at e
+  simp only [] at e
+  split at e
+  · cases e
+  · split at e
+    · cases e; simp at hp
+    · rename_i hrank
+      split at e
+      · cases e
+      · split at e
+        · cases e
+        · rename_i hcl
+          have hred := fun v => reduced_sol a.r a.f b.f v hn
+          have hc := (hred (vget v)).1
+          split at e
+          · cases e
+          · rename_i basis eb
+            split at e
+            · split at e
+              · cases e; simp at hsol
+              · rename_i hfind
+                have hL : 0 < (colFinder (selectRows (rowReduction (coeffMaker a.r a.f b.f).norm
+                    { r := (coeffMaker a.r a.f b.f).norm.r, c := (coeffMaker a.r a.f b.f).norm.c, f := fun _ _ => false }).1
+                    (nonzeroRows (rowReduction (coeffMaker a.r a.f b.f).norm
+                    { r := (coeffMaker a.r a.f b.f).norm.r, c := (coeffMaker a.r a.f b.f).norm.c, f := fun _ _ => false }).1)).norm).length := by
+                  simp only [ne_eq, Decidable.not_not] at hcl
+                  omega
+                apply small_search_exhaustive _ _ basis a.r hc hL (colFinder_sorted _ (by rw [hc]; omega)) eb _ v
+                  ((hred (vget v)).2.mpr hv)
+                intro c hc'
+                have := List.find?_eq_none.mp hfind c hc'
+                simpa using this
+            · split at e
+              · split at e
+                · cases e
+                · cases e; simp at hp
+              · split at e
+                · cases e; simp at hsol
+                · cases e; simp at hp
+              · cases e
+
+
 end Graphiq.LC
